@@ -2,7 +2,7 @@
 import sys
 
 from .parser import (VElabError, KEYWORDS_2005, Num, Id, Concat, Index, PartSel, IdxPartSel,
-                     Block, AssignStmt, IfStmt, CaseStmt, NullStmt, Decl, Param, ContAssign,
+                     Block, AssignStmt, IfStmt, CaseStmt, NullStmt, ForStmt, Decl, Param, ContAssign,
                      Always, Initial, Instance)
 from .expr import (Const, Sym, Ctx, analyze, analyze_lvalue, const_value, const_int, gen)
 
@@ -181,6 +181,24 @@ def compile_stmt(s, pc):
             elif ef is not None:
                 ef(st)
         return iff
+    if isinstance(s, ForStmt):
+        fi = compile_stmt(s.init, pc)
+        ct = analyze(s.cond, cx)
+        cf = gen(ct, ct.w, ct.s)
+        fs = compile_stmt(s.step, pc)
+        fb = compile_stmt(s.body, pc)
+
+        def forloop(st):
+            fi(st)
+            n = 0
+            while cf(st)[0]:
+                if fb is not None:
+                    fb(st)
+                fs(st)
+                n += 1
+                if n > 1 << 20:
+                    raise VElabError('unsupported', 'for loop does not terminate', s.line)
+        return forloop
     if isinstance(s, CaseStmt):
         et = analyze(s.expr, cx)
         raw = []
